@@ -55,14 +55,23 @@ class Scene:
 
     def run(self, mode, limit=None, exe=None, timeout=300):
         self.n += 1
+        prefix = None
+        if mode.startswith("readfail"):
+            # the k-th read of the first backup's data.tar.zst fails with EIO while the upload archives it (real gpg, recorded)
+            k = int(mode.split(":")[1])
+            victim = os.path.join(self.st, self.group, self.backups[0], "data.tar.zst")
+            prefix = ["strace", "-f", "-o", self.sb.path("strace-readfail.txt"), "-e", "trace=read", "-P", victim, "-e", "inject=read:error=EIO:when=%d" % k]
+            mode_env = "tee"
+        else:
+            mode_env = mode
         gd = self.sb.path("gpgrec%d" % self.n)
         os.makedirs(gd)
         emu = cloud.Emu(self.sb.path("emu%d" % self.n), init=self.init)
-        env = {"PATH": SHIM_DIR + ":" + os.environ["PATH"], "VERIF_GPG_DIR": gd, "VERIF_GPG_MODE": mode, "VERIF_REAL_GPG": cloud.REAL_GPG}
+        env = {"PATH": SHIM_DIR + ":" + os.environ["PATH"], "VERIF_GPG_DIR": gd, "VERIF_GPG_MODE": mode_env, "VERIF_REAL_GPG": cloud.REAL_GPG}
         if limit:
             env["VSB_VERIF_DROPBOX_MAX_REQUEST_SIZE"] = str(limit)
         try:
-            r = cloud.run_upload(self.sb, emu, now=self.H.now + 500, timeout=timeout, extra_env=env, exe=exe)
+            r = cloud.run_upload(self.sb, emu, now=self.H.now + 500, timeout=timeout, extra_env=env, exe=exe, prefix=prefix)
             r["requests"] = emu.requests()
             r["files"] = emu.files(self.provider)
             r["blobs"] = {}
@@ -113,13 +122,13 @@ def examine_killed(sc, r, label):
             if members != want:
                 return ("violation", "%s: the object published under the final name of %s is not the local backup" % (label, b))
     if not slevel.errors_of(r["out"]):
-        return ("violation", "%s: the encryptor was killed but no error is reported" % label)
+        return ("violation", "%s: the upload was disturbed but no error is reported" % label)
     return None
 
 
 def examine(sc, r, label, mode, limit):
     """returns (kind, problem) or None; kind 'violation' has a failing input, 'tie' is a broken correspondence"""
-    if mode.startswith("teekill"):
+    if mode.startswith("teekill") or mode.startswith("readfail"):
         return examine_killed(sc, r, label)
     errs = slevel.errors_of(r["out"])
     if r["timed_out"] or r["exit"] != 0 or errs:
@@ -211,6 +220,11 @@ def one(ctx, rng, provider, passphrase, big, modes, exe=None):
                 label = "%s, passphrase %r, %s, limit %s, encryptor output %s bytes" % (provider, passphrase[:30], mode, limit, sizes)
                 ctx.count("provider." + provider)
                 ctx.count("mode." + mode.split(":")[0])
+                if mode.startswith("readfail"):
+                    tfp = sb.path("strace-readfail.txt")
+                    if not (os.path.exists(tfp) and "(INJECTED)" in open(tfp, errors="replace").read()):
+                        ctx.count("mode.readfail-not-reached")
+                        continue
                 if provider == "dropbox":
                     m = limit or 150 * 1024 * 1024
                     for n in sizes:
@@ -246,7 +260,7 @@ def run(ctx):
             big = rng.choice([200000, 700000, 3000000] if thorough else [150000, 400000]) if (i == 0 or thorough) else 0
             modes = [("tee", L if provider == "dropbox" else None)]
             if i == 0:
-                modes += [("teekill9", None), ("teekill15", None), ("tee", None)] + (fakes if provider == "dropbox" else [("fake:%d" % (2 * L + 1), None), ("fake:1", None)])
+                modes += [("teekill9", None), ("teekill15", None), ("readfail:1", None), ("readfail:3", None), ("tee", None)] + (fakes if provider == "dropbox" else [("fake:%d" % (2 * L + 1), None), ("fake:1", None)])
             one(ctx, rng, provider, pw, big, modes)
             if ctx.violations:
                 return
